@@ -4,7 +4,7 @@ _NOTE = 'Trusted: Lean kernel, axioms propext/Classical.choice/Quot.sound, Mathl
 
 REG = {
     "C04": {
-        "module": "Props.C04",
+        "module": ["Props.C04", "Props.C04Gen"],
         "suites": [("expr", (6000, 150000))],
         "rule": "random expression trees (depth 1-9) over the grammar's whole literal and operator vocabulary: integer literals in four bases with digit separators, reals in every "
                 "admitted form, strings with every escape form, booleans, set literals, unary + - !, all 17 binary operators, .min/.max/.count and unknown attributes, identifiers of "
@@ -15,7 +15,7 @@ REG = {
                 "of sets (comparison, algebra, .count, element-wise +) and as printed values (12% of the cases, and 12% of the string leaves of the general trees); rendered with minimal or random redundant "
                 "parentheses and random blanks; observed through @print, @assert, constant initialisers, array capacities (three spellings) and @extent of a definition in a temporary "
                 "namespace read with read_namespace; non-trivial = compound tree; distinct = distinct (tree, context, rendering)",
-        "technique": "Lean 4 theorems over an executable model of literals, evaluator, printer and PEG-level parser + differential correspondence (model evaluates the tree, library evaluates the text) + independent fractions.Fraction / unicodedata oracle",
+        "technique": "Lean 4 theorems over an executable model of literals, evaluator, printer and PEG-level parser + the operator semantics re-translated from pydsdl/_expression/{_any,_primitive,_container,_operator}.py into Lean on every run (tools/py2lean_expr.py -> lean/Gen/ExprOps.lean, meaning of the Python fragment: lean/PyLib/Expr.lean) and proved equal to the model's operators (lean/Bridge/ExprOps*.lean, Props/C04Gen.lean) + differential correspondence (model evaluates the tree, library evaluates the text) + independent fractions.Fraction / unicodedata oracle",
         "level_text": "Proved in Lean 4 for the model, for all inputs: + - * / % ** (integral exponents) and the comparisons are exact field/order operations on rationals (floored modulo, 0**-n and /0 %0 rejected); "
                       "a binary operator yields a value exactly for the operand combinations of the definedness table (scalars, element-wise set/scalar in both orders, set algebra) and every other combination is an "
                       "InvalidDefinition-class rejection; on strings `+` concatenates the code points and nothing else, `==` holds exactly when the normal forms of the operands are equal and `!=` is its negation - for literals and for "
@@ -28,7 +28,13 @@ REG = {
                       "the PEG (ordered choice, greedy repetition, right-recursive **), and no token list renders two different trees; and the terminals of the grammar as a character-level lexer (two-character "
                       "operators before their one-character prefixes, real before integer, the three prefixed bases before decimal, true/false before identifier, both string forms, blanks skipped) invert the "
                       "renderer for every well-formed token list and every choice of blanks, so that characters -> tokens -> tree returns the tree for every admissible parenthesisation and every spacing. The model "
-                      "is tied to pydsdl by running both on every generated expression; the model lexes and parses the very text handed to the library and must obtain the generated tree.",
+                      "is tied to pydsdl by running both on every generated expression; the model lexes and parses the very text handed to the library and must obtain the generated tree. "
+                      "Operators, second tie (Props/C04Gen): the 21 functions of _operator.py (with the _auto_swap decorator), the operator methods, constructors, __eq__/__hash__/__bool__/__iter__ of Boolean, Rational, String, Set "
+                      "(with the homotypic decorator, _elementwise, _attribute) and the defaults of Any are translated from the working tree into Lean definitions over dynamically typed Python objects; proved for all inputs: on every "
+                      "pair of model values (primitives; sets of primitives, a string element in any spelling) every translated binary operator, the three unary operators, the attribute operator and Set(...) return an object denoting the "
+                      "model's result or raise the Python exception class of the model's error (UndefinedOperatorError / UndefinedAttributeError / InvalidOperandError, all InvalidDefinitionErrors by the class statements of _any.py) - for every call budget "
+                      "of the late-binding environment, so never a RecursionError; the C04 operator statements (exact + - * / % ** and comparisons on Fractions as numerator/denominator pairs against Lean's Rat incl. CPython's Fraction._mod as floored modulo, "
+                      "| ^ & as two's complement bit operations (Int.testBit), the definedness table, set algebra / comparison / element-wise application / min max count, set literals) are restated over the translated functions.",
         "level_note": _NOTE + " Non-integral exponents (Python floats, inexact by construction), sets whose elements are sets and type expressions as atoms "
                       "are outside the model (explicit 'inexact'/'unsupported'/'none' outcomes, excluded or skipped); they are covered by the oracle/correspondence only. NFC: the model implements UAX #15 (Ex.Ucd.nfc) "
                       "and receives, per case, an extract of the Unicode Character Database of the Python interpreter (unicodedata: canonical combining classes, full canonical decompositions, primary composites "
@@ -45,7 +51,10 @@ REG = {
                     "non-integral exponents, nested sets: outside the model",
                     "NFC string equality is inside the model and the oracle; the normal form is a parameter of the theorems (C04.strings, C04.strings_equivalence hold for every normalisation function) and the "
                     "concrete algorithm Ex.Ucd.nfc has the Hangul round trip and closed examples as theorems only - its agreement with Unicode NFC rests on the per-case character data and the correspondence"],
-        "assumptions": ["lean/Model/Expr.lean mirrors grammar.parsimonious, _parser.py and _expression/*.py (validated by the expr correspondence on every run)"],
+        "assumptions": ["lean/Model/Expr.lean mirrors grammar.parsimonious, _parser.py and _expression/*.py (validated by the expr correspondence on every run)",
+                        "operators: lean/PyLib/Expr.lean is the meaning of the translated Python fragment (dynamic objects, exceptions by class, fractions.Fraction as normalised pairs, frozenset as duplicate-free list with idealised collision-free hashes and one fixed iteration order, "
+                        "float results of non-integral powers unmodelled) and tools/py2lean_expr.py translates faithfully; which function of _operator.py a grammar rule calls (_parser.py) is covered by the correspondence only; "
+                        "NFC is a congruence for concatenation (BridgeEx.NfcLaws, needed only where a string element of a set is concatenated with a string)"],
     },
     "C12": {
         "module": ["Props.C12", "Props.C12Gen"],
@@ -54,14 +63,24 @@ REG = {
                 "own and neighbouring widths +-2, 2**63/2**64 edges, float16/32/64 +-max finite +-1, +-1/3, +-1e-30, +-max/2**60, non-integers, strings of length 0/1/2 incl. NUL, DEL, U+0080, "
                 "non-ASCII, booleans, sets, ill-formed type parameters (int1, truncated int8, uint65, float17) and types that cannot carry constants (void, arrays, byte, utf8); initialisers spelled as "
                 "literals in any base, 2**k-1 forms, sums, quotients; distinct = distinct (type, initialiser text)",
-        "technique": "Lean 4 theorems over a model of Constant.__init__ and inclusive_value_range, the integer ranges re-checked on every run against Lean definitions translated from _primitive.py (py2lean + bridge theorems) + differential correspondence through `<type> X = <expr>` definitions + declarative oracle on Python integers/Fractions",
+        "technique": "Lean 4 theorems over a model of Constant.__init__ and inclusive_value_range; the model is proved equal to Lean definitions that are translated on every run from the working tree "
+                     "(py2lean: Constant.__init__, the constructors / inclusive_value_range / class hierarchy of _primitive.py incl. the table of the float limits, Rational.is_integer, the value classes of "
+                     "_expression) by bridge theorems + differential correspondence through `<type> X = <expr>` definitions + declarative oracle on Python integers/Fractions",
         "level_text": "Proved in Lean 4 for the model: the signed range the code computes from ((1<<n)-1)//2 is [-2^(n-1), 2^(n-1)-1] for every n>=1, the unsigned range is [0, 2^n-1], the float ranges are "
                       "+-(largest finite value) of binary16/32/64 as exact rationals; and constCheck ty v = ok v' if and only if the rule of the property holds (bool<->bool; integers integral and in range; "
                       "floats rational in range; a one-character ASCII string only for 8-bit unsigned, stored as its code point; value otherwise stored unchanged; only bool/integer/float types with legal "
-                      "parameters). Constant.value of the real library is compared with the model and with the initialiser on every run.",
-        "level_note": _NOTE,
-        "partial": ["a lone surrogate in a string initialiser is a hazard outcome of the model (UnicodeEncodeError in the library): see C13"],
-        "assumptions": ["lean/Model/Const.lean mirrors _attribute.py/_primitive.py (validated by the const correspondence on every run)"],
+                      "parameters). Proved for the code as translated from the working tree (Gen.Constant; Bridge.gen_const, Props.C12Gen): the translated constructor of the type followed by the translated "
+                      "Constant.__init__ returns, for every type descriptor and every value, exactly what the model predicts - the same stored value, or one of InvalidConstantValueError / InvalidTypeError / "
+                      "InvalidBitLengthError / InvalidCastModeError, never a failed assert, a missing attribute, a stray KeyError or a step outside the translated fragment - hence it accepts an initialiser "
+                      "iff the rule of the property holds (C12.gen_iff, C12.gen_total), stores the initialiser itself or the code point of the single ASCII character (C12.gen_stored_exact), and the float "
+                      "limits it computes with Fraction arithmetic are the IEEE maxima (C12.gen_float_limits, C12.gen_float_accepts); every isinstance is decided through the class hierarchy read from the "
+                      "class statements. Constant.value of the real library is compared with the model and with the initialiser on every run.",
+        "level_note": _NOTE + " For C12 the hand-written model lean/Model/Const.lean (constCheck) is additionally proved equal to the translated code; trusted there: the translator tools/py2lean_const.py and "
+                      "the meaning of its Python fragment lean/PyConst.lean (int = Int, Fraction = Rat, str = code points, objects = class + assigned attributes, isinstance by method resolution order), and "
+                      "what the slice leaves out: Attribute.__init__ (name rules: C05; serializability), the parser's mapping of a type expression to a constructor call, _check_aggregation (which is what "
+                      "rejects byte/utf8 constants: Constant.__init__ treats them as uint8, C12.gen_byte_utf8_as_uint8).",
+        "partial": [],
+        "assumptions": ["tools/py2lean_const.py translates the Python fragment faithfully (lean/PyConst.lean states its meaning); lean/Model/Const.lean additionally validated by the const correspondence on every run"],
     },
     "C13": {
         "module": ["Props.C13", "Props.C13Gen"],
@@ -76,7 +95,7 @@ REG = {
         "level_text": "Proved in Lean 4 for the model: the funnel (parse: Error passes, ParseError -> syntax error, VisitationError -> InternalError; read/_read_definitions: Error passes with path, anything else -> "
                       "InternalError) surfaces an inner invalid outcome as invalid with the path and lets nothing but MemoryError/SystemError through as foreign; an expression inside the bounds (literals within "
                       "the conversion limit, escapes within Unicode, exponents integral by syntax) evaluates to a value or an InvalidDefinition-class rejection in every environment - no hazardous Python "
-                      "operation is reached; hazards of the binary operators arise only from non-integral exponents; the only hazard of Constant.__init__ is a lone surrogate. On the real library every "
+                      "operation is reached; hazards of the binary operators arise only from non-integral exponents; Constant.__init__ reaches no hazard (a lone surrogate in a string initialiser is encoded with surrogatepass: three bytes, an invalid definition). On the real library every "
                       "outcome other than a model / InvalidDefinitionError with a path inside the namespace is a violation; nine classes of genuine defects are observed on the pinned tree (see known findings).",
         "level_note": _NOTE + " The completeness of the hazard list, the parsimonious engine, CPython limits (recursion depth, 4300-digit conversions, memory) and arbitrary definition texts (the model has no "
                       "full DSDL reader in this group) are covered by the differential streams only.",
